@@ -427,6 +427,14 @@ impl Circuit {
 
     pub fn reset<C>(&mut self, config: &CircuitBreakerConfig<C>) {
         self.transition_to(CircuitState::Closed, config);
+        // `transition_to` does nothing when the circuit is already closed: empty the window
+        // here so that reset always returns to closed with no recorded calls.
+        self.success_count = 0;
+        self.failure_count = 0;
+        self.total_count = 0;
+        self.slow_call_count = 0;
+        self.count_records.clear();
+        self.call_records.clear();
     }
 
     fn transition_to<C>(&mut self, state: CircuitState, config: &CircuitBreakerConfig<C>) {
